@@ -18,6 +18,13 @@ A *step of the schedule* (`send`, `release`, `sinkAnswer`) is followed by `settl
 internal step (forward reads, Link/Write calls, backward deliveries) until none is left – the
 harness does the same by waiting for quiescence.  The order chosen here is one fixed order; the
 real goroutines may take any (C02.node_contract is the statement that it does not matter).
+
+Ghost state (never read by the machine itself): `log` records the derivation tree as it unfolds –
+which packets an action derived from a request (`acts`), which copies a write handed to the linked
+readers (`dels`), which packets were answered with themselves because nobody accepted them (`echo`),
+and what each sink answered (`sinkAns`); `roots` are the source's requests, `resp` all responses the
+source has received.  `refAns` is the REFERENCE answer of a packet: the join over its derivation
+tree as C02 states it.
 -/
 import Uniflow.Model.Node
 
@@ -39,13 +46,58 @@ structure Writer where
   rows : List (List (Option Ans)) := []
   queue : List Ans := []
 
+/-- the derivation tree, recorded as the run unfolds (ghost) -/
+structure Log where
+  acts : List (Pid × List Pid) := []      -- request ↦ the packets its action derived from it, in link order
+  dels : List (Pid × List Pid) := []      -- accepted written packet ↦ the copies delivered, in target order
+  echo : List (Pid × Val) := []           -- packet nobody accepted (or `Write(nil, in)`): answered with itself
+  sinkAns : List (Pid × Ans) := []        -- copy delivered to a sink ↦ the sink's answer
+
+def allSome {α : Type} : List (Option α) → Option (List α)
+  | [] => some []
+  | none :: _ => none
+  | some a :: xs =>
+    match allSome xs with
+    | some as => some (a :: as)
+    | none => none
+
+/-- The reference answer of packet `p`: itself when nobody accepted it; the sink's answer for a copy
+delivered to a sink; for an accepted write the `Join` of the answers to its copies (the writer's
+contract); for a request the `Join` of the answers to the packets derived from it, in link order.
+`none` = some packet below has not been answered yet.  `fuel` bounds the depth (ids grow downwards,
+so `g.next` is enough). -/
+def refAns (lg : Log) : Nat → Pid → Option Ans
+  | 0, _ => none
+  | fuel + 1, p =>
+    match aget lg.echo p with
+    | some v => some (.pay v)
+    | none =>
+      match aget lg.sinkAns p with
+      | some a => some a
+      | none =>
+        match aget lg.dels p with
+        | some cs =>
+          match allSome (cs.map (refAns lg fuel)) with
+          | some as => some (join as)
+          | none => none
+        | none =>
+          match aget lg.acts p with
+          | some qs =>
+            match allSome (qs.map (refAns lg fuel)) with
+            | some as => some (join as)
+            | none => none
+          | none => none
+
 structure G where
   nodes : List Node := []
   links : List (Nat × List Tgt) := []
   writers : List (Nat × Writer) := []
   fifo : List (Nat × List Nat) := []
-  sinks : List (Nat × List Val) := []
+  sinks : List (Nat × List (Pid × Val)) := []
   next : Pid := 1
+  log : Log := {}
+  roots : List Pid := []
+  resp : List Ans := []
   srcOut : List Ans := []
   entered : List (Nat × List Val) := []
   arrived : List (Nat × Val) := []
@@ -70,7 +122,9 @@ def getWriter (g : G) (key : Nat) : Writer :=
 def deliver (g : G) (key : Nat) (v : Val) (t : Tgt) : G :=
   let g := { g with fifo := aset g.fifo (rkeyOf t) (getL g.fifo (rkeyOf t) ++ [key]) }
   match t with
-  | .sink k => { g with sinks := aset g.sinks k (getL g.sinks k ++ [v]), arrived := g.arrived ++ [(k, v)] }
+  | .sink k =>
+    { g with sinks := aset g.sinks k (getL g.sinks k ++ [(g.next, v)]), arrived := g.arrived ++ [(k, v)],
+             next := g.next + 1 }
   | .node m port =>
     match getNode g.nodes m with
     | none => { g with bad := true }
@@ -79,14 +133,26 @@ def deliver (g : G) (key : Nat) (v : Val) (t : Tgt) : G :=
       | none => { g with bad := true }
       | some (nd', _) => { g with nodes := setNode g.nodes m nd', next := g.next + 1 }
 
-/-- `Writer.Write`: returns whether some reader accepted -/
-def gWrite (g : G) (key : Nat) (v : Val) : G × Bool :=
+/-- deliver to every linked reader; returns the ids of the copies (every delivery takes the next id) -/
+def deliverAll (key : Nat) (v : Val) : List Tgt → G → G × List Pid
+  | [], g => (g, [])
+  | t :: ts, g =>
+    let c := g.next
+    let (g', cs) := deliverAll key v ts (deliver g key v t)
+    (g', c :: cs)
+
+/-- `Writer.Write` of packet `qid`: returns whether some reader accepted -/
+def gWrite (g : G) (key : Nat) (qid : Pid) (v : Val) : G × Bool :=
   match getL g.links key with
   | [] => (g, false)
   | tgts =>
     let w := getWriter g key
     let g := { g with writers := aset g.writers key { w with rows := w.rows ++ [List.replicate tgts.length none] } }
-    (tgts.foldl (fun g t => deliver g key v t) g, true)
+    let (g, cs) := deliverAll key v tgts g
+    ({ g with log := { g.log with dels := aset g.log.dels qid cs } }, true)
+
+def logEcho (g : G) (q : Pkt) : G :=
+  { g with log := { g.log with echo := aset g.log.echo q.id q.pay } }
 
 def colOf (rk : Nat) : List Tgt → Nat → Option Nat
   | [], _ => none
@@ -118,7 +184,9 @@ def gReply (g : G) (rk : Nat) (a : Ans) : G :=
         if hasNil row then { g with writers := aset g.writers key { w with rows := row :: rows' } }
         else
           let j := joinCells row
-          if key = srcKey then { g with writers := aset g.writers key { w with rows := rows' }, srcOut := g.srcOut ++ [j] }
+          if key = srcKey then
+            { g with writers := aset g.writers key { w with rows := rows' }, srcOut := g.srcOut ++ [j],
+                     resp := g.resp ++ [j] }
           else { g with writers := aset g.writers key { rows := rows', queue := w.queue ++ [j] } }
       | some (rows', _) => { g with writers := aset g.writers key { w with rows := rows' } }
 
@@ -134,7 +202,8 @@ def putNode (g : G) (n : Nat) (nd : Node) (ev : List Ev) : G :=
 def threadStep (g : G) (n : Nat) (nd : Node) (i : Nat) : Option G :=
   match getThread nd.threads i with
   | some { inbox := _, pc := .emit (.write (some w) q :: _) } =>
-    let (g, acc) := gWrite g (wkey n w) q.pay
+    let (g, acc) := gWrite g (wkey n w) q.id q.pay
+    let g := if acc then g else logEcho g q
     -- the node may have received deliveries from its own write only in a cyclic graph; re-read it
     match getNode g.nodes n with
     | none => none
@@ -142,6 +211,10 @@ def threadStep (g : G) (n : Nat) (nd : Node) (i : Nat) : Option G :=
       match step nd (.op i acc) with
       | some (nd', ev) => some (putNode g n nd' ev)
       | none => none
+  | some { inbox := _, pc := .emit (.write none q :: _) } =>
+    match step nd (.op i false) with
+    | some (nd', ev) => some (putNode (logEcho g q) n nd' ev)
+    | none => none
   | some { inbox := _, pc := .emit (_ :: _) } =>
     match step nd (.op i false) with
     | some (nd', ev) => some (putNode g n nd' ev)
@@ -192,7 +265,9 @@ def clearObs (g : G) : G := { g with srcOut := [], entered := [], arrived := [] 
 
 /-- the source writes a request with payload `v` -/
 def send (g : G) (v : Val) : G :=
-  settle settleFuel (gWrite (clearObs g) srcKey v).1
+  let g := clearObs g
+  let rid := g.next
+  settle settleFuel (gWrite { g with next := rid + 1, roots := g.roots ++ [rid] } srcKey rid v).1
 
 def actionThread : List Thread → Nat → Option (Nat × Pkt)
   | [], _ => none
@@ -212,6 +287,11 @@ def allocOuts : List (Option Val) → Pid → List (Option Pkt) × Pid
   | none :: vs, nx => let (qs, nx') := allocOuts vs nx; (none :: qs, nx')
   | some v :: vs, nx => let (qs, nx') := allocOuts vs (nx + 1); (some { id := nx, pay := v } :: qs, nx')
 
+def writeIds : List Op → List Pid
+  | [] => []
+  | .write _ q :: ops => q.id :: writeIds ops
+  | .link _ _ :: ops => writeIds ops
+
 /-- the action running in node `n` returns -/
 def release (g : G) (n : Nat) (r : Rel) : Option G :=
   let g := clearObs g
@@ -229,18 +309,25 @@ def release (g : G) (n : Nat) (r : Rel) : Option G :=
         | .drop => (.outs [], g.next)
       match step nd (.finish i o) with
       | none => none
-      | some (nd', ev) => some (settle settleFuel (putNode { g with next := nx } n nd' ev))
+      | some (nd', ev) =>
+        let outs := match program nd.kind p o with
+          | some ops => (writeIds ops).filter (fun q => q != p.id)
+          | none => []
+        let lg := match outs with
+          | [] => g.log
+          | _ :: _ => { g.log with acts := aset g.log.acts p.id outs }
+        some (settle settleFuel (putNode { g with next := nx, log := lg } n nd' ev))
 
 /-- sink `k` answers its oldest request; `a = none` answers with the request packet itself -/
 def sinkAnswer (g : G) (k : Nat) (a : Option Ans) : Option G :=
   let g := clearObs g
   match getL g.sinks k with
   | [] => none
-  | v :: rest =>
-    let g := { g with sinks := setOrDel g.sinks k rest }
+  | (c, v) :: rest =>
     let a := match a with
       | some a => a
       | none => Ans.pay v
+    let g := { g with sinks := setOrDel g.sinks k rest, log := { g.log with sinkAns := aset g.log.sinkAns c a } }
     some (settle settleFuel (gReply g (rkeyOf (.sink k)) a))
 
 def threadQuiet : Thread → Bool
@@ -251,7 +338,49 @@ def threadQuiet : Thread → Bool
 def quiescentEmpty (g : G) : Bool :=
   g.nodes.all (fun nd => isEmpty nd.tr && nd.threads.all threadQuiet)
 
+/-- the reference answers of the source's requests, in request order (`none`: not all are determined yet) -/
+def refAnswers (g : G) : Option (List Ans) := allSome (g.roots.map (refAns g.log (g.next + 1)))
+
 def anyPanic (g : G) : Bool :=
   g.bad || g.nodes.any (fun nd => nd.panic || nd.tr.panic)
+
+
+/-! ### schedules of the joint model -/
+
+/-- one step of the schedule: the source sends a request, the action running in a node returns, a
+sink answers its oldest request.  (A step that is not enabled is skipped.) -/
+inductive Ext where
+  | send (v : Val)
+  | release (n : Nat) (r : Rel)
+  | sinkAnswer (k : Nat) (a : Option Ans)
+
+def ext (g : G) : Ext → G
+  | .send v => send g v
+  | .release n r => match release g n r with | some g' => g' | none => g
+  | .sinkAnswer k a => match sinkAnswer g k a with | some g' => g' | none => g
+
+def runExt : G → List Ext → G
+  | g, [] => g
+  | g, e :: es => runExt (ext g e) es
+
+/-- the action returns new packets (not its input packet) -/
+def Ext.fresh : Ext → Bool
+  | .release _ .same => false
+  | _ => true
+
+/-- nothing left to do: no sink holds a request, no answer waits in a writer's pump, every tracer is
+empty and every forward thread idle with an empty inbox -/
+def quiescent (g : G) : Bool :=
+  quiescentEmpty g && g.sinks.all (fun s => s.2.isEmpty) && g.writers.all (fun w => w.2.queue.isEmpty)
+
+
+/-- safety at a prefix (executable): the i-th response received so far is the reference answer of the
+i-th request (so it is determined: every packet derived from the request has been answered) -/
+def respOK (showA : Ans → String) (g : G) : Bool :=
+  g.resp.length ≤ g.roots.length &&
+  (List.zip g.resp g.roots).all (fun x =>
+    match refAns g.log (g.next + 1) x.2 with
+    | some a => showA a == showA x.1
+    | none => false)
 
 end Uniflow.Flow
